@@ -14,6 +14,7 @@ import (
 	"github.com/gofiber/fiber/v3"
 	fiberlog "github.com/gofiber/fiber/v3/log"
 	"github.com/gofiber/fiber/v3/middleware/idempotency"
+	"github.com/valyala/fasthttp"
 
 	"verifharness/internal/drive"
 	"verifharness/internal/ev"
@@ -22,7 +23,10 @@ import (
 // idem.race: real time, -race build, all Ps. 64 goroutines x 8 keys hammer ONE middleware
 // instance built with the default memory storage and the default MemoryLock (Config.Storage and
 // Config.Lock left nil). Every round uses 8 fresh keys, all goroutines are released together,
-// 8 per key, so the first arrival for every key is contended. Oracle on the same executions the
+// 8 per key, so the first arrival for every key is contended. Before that, every case runs
+// "pair rounds": exactly two requests per fresh key, lined up by a spin barrier so that both
+// are inside the middleware (fast path, MemoryLock.Lock for a key without an entry) at the same
+// instant. Oracle on the same executions the
 // race detector watches: successes(key) <= 1, every answer for a key that is not the error
 // answer of a failed execution is identical (status, body, X-Exec, X-Multi); keyless and
 // safe-method requests always execute. Nothing depends on time (Lifetime 30 min).
@@ -31,7 +35,116 @@ const (
 	raceGoroutines    = 64
 	raceKeys          = 8
 	raceRoundWatchdog = 60 * time.Second
+	racePoll          = 250 * time.Millisecond
 )
+
+const idemPkg = "github.com/gofiber/fiber/v3/middleware/idempotency."
+
+// raceRig knows the goroutines that currently run requests of one case.
+type raceRig struct {
+	mu   sync.Mutex
+	gids map[string]bool
+}
+
+func raceGoid() string {
+	var buf [64]byte
+	n := runtime.Stack(buf[:], false)
+	f := strings.Fields(string(buf[:n]))
+	if len(f) < 2 {
+		return ""
+	}
+	return f[1]
+}
+
+func (g *raceRig) enter() string {
+	id := raceGoid()
+	g.mu.Lock()
+	g.gids[id] = true
+	g.mu.Unlock()
+	return id
+}
+
+func (g *raceRig) leave(id string) {
+	g.mu.Lock()
+	delete(g.gids, id)
+	g.mu.Unlock()
+}
+
+// lockWaiters evaluates the clock-free wedge predicate on one full goroutine dump: the ids of
+// this rig's request goroutines that are blocked on a mutex inside (*MemoryLock).Lock, and how
+// many other request goroutines of the rig are alive (anywhere else: in the handler, in storage,
+// in Unlock, runnable ...). Only goroutines of this rig ever touch its MemoryLock, so when every
+// live one of them waits inside Lock nobody is left who could release any of those mutexes.
+func (g *raceRig) lockWaiters() (waiters []string, others int) {
+	g.mu.Lock()
+	mine := make(map[string]bool, len(g.gids))
+	for id := range g.gids {
+		mine[id] = true
+	}
+	g.mu.Unlock()
+	buf := make([]byte, 1<<20)
+	for {
+		n := runtime.Stack(buf, true)
+		if n < len(buf) {
+			buf = buf[:n]
+			break
+		}
+		if len(buf) >= 64<<20 {
+			return nil, 1 // cannot see everything: never confirm
+		}
+		buf = make([]byte, 2*len(buf))
+	}
+	seen := 0
+	for _, gr := range strings.Split(string(buf), "\n\n") {
+		lines := strings.SplitN(gr, "\n", 2)
+		f := strings.Fields(lines[0])
+		if len(f) < 3 || f[0] != "goroutine" || !mine[f[1]] {
+			continue
+		}
+		seen++
+		state := lines[0]
+		blocked := strings.Contains(state, "Mutex.Lock") || strings.Contains(state, "semacquire")
+		if blocked && strings.Contains(gr, idemPkg+"(*MemoryLock).Lock") {
+			waiters = append(waiters, f[1])
+		} else {
+			others++
+		}
+	}
+	if seen != len(mine) {
+		others++ // a registered goroutine is missing from the dump (just finished): not quiescent
+	}
+	sort.Strings(waiters)
+	return waiters, others
+}
+
+// wait waits for done. "done"; "deadlock": the predicate held, with the same waiters, in two
+// consecutive dumps (no clock involved in the verdict); "timeout": the generous wall-clock guard
+// fired without such a confirmation (inconclusive, DESIGN R2).
+func (g *raceRig) wait(done <-chan struct{}) string {
+	start := time.Now()
+	prev := ""
+	tk := time.NewTicker(racePoll)
+	defer tk.Stop()
+	for {
+		select {
+		case <-done:
+			return "done"
+		case <-tk.C:
+		}
+		if w, o := g.lockWaiters(); len(w) > 0 && o == 0 {
+			cur := strings.Join(w, ",")
+			if cur == prev {
+				return "deadlock"
+			}
+			prev = cur
+		} else {
+			prev = ""
+		}
+		if time.Since(start) > raceRoundWatchdog {
+			return "timeout"
+		}
+	}
+}
 
 type raceAnswer struct {
 	key     string
@@ -54,7 +167,10 @@ func runRace(e *ev.Env) {
 		failFirst := r.Chance(1, 3)
 		keep := r.Bool()
 		rounds := e.N(40, 150)
+		pairRounds := e.N(150, 600)
 		tag := "ab" + r.StringFrom("0123456789abcdef", 6)
+		rig := &raceRig{gids: map[string]bool{}}
+		var hammering atomic.Bool // planned handler failures only in the hammer rounds
 
 		var execCtr atomic.Int64
 		type keyState struct {
@@ -88,7 +204,7 @@ func runRace(e *ev.Env) {
 			for i := 0; i < int(n%4); i++ {
 				runtime.Gosched() // widen the window between re-check and store
 			}
-			if failFirst && ord == 1 {
+			if failFirst && ord == 1 && hammering.Load() {
 				return fiber.NewError(fiber.StatusServiceUnavailable, "planned handler failure")
 			}
 			s := strconv.FormatInt(n, 10)
@@ -104,39 +220,129 @@ func runRace(e *ev.Env) {
 			return c.SendString("exec-" + s)
 		})
 		d := drive.NewDirect(app)
+		handle := app.Handler()
 
 		var mu sync.Mutex
 		var answers []raceAnswer
 		var freeBad atomic.Int64
 		wedged := false
-		for round := 0; round < rounds; round++ {
+		record := func(key string, resp *drive.Resp) {
+			a := raceAnswer{key: key, status: resp.Status, body: string(resp.Body), exec: resp.Get("X-Exec"),
+				multi: strings.Join(resp.All("X-Multi"), "|"), errored: resp.Get("X-Errored") == "1"}
+			mu.Lock()
+			answers = append(answers, a)
+			mu.Unlock()
+		}
+		keyOf := func(round, k int) string {
+			// 8 different keys per round; keys 2j and 2j+1 are the same text in lower and in
+			// upper case (the tag starts with letters): different strings, different keys
+			key := fmt.Sprintf("%s-%04d-4000-8000-%012d", tag, round, k/2)
+			if k%2 == 1 {
+				key = strings.ToUpper(key)
+			}
+			return key
+		}
+		// finish waits for the goroutines of one round; false = the case ends here
+		finish := func(wg *sync.WaitGroup, what string) bool {
+			done := make(chan struct{})
+			go func() { wg.Wait(); close(done) }()
+			switch rig.wait(done) {
+			case "done":
+				return true
+			case "deadlock":
+				w, _ := rig.lockWaiters()
+				e.Violation(c, "deadlock|duplicates-wedged-in-lock|race-stress",
+					fmt.Sprintf("%s: %d request goroutines wait inside MemoryLock.Lock and no other request goroutine of the instance is alive (two consecutive goroutine dumps, same waiters): nobody can release them", what, len(w)),
+					map[string]any{"waiting_goroutines": len(w), "fail_first": failFirst, "keep": keep})
+			default:
+				// Generous real-time watchdog (a round takes milliseconds): not a verdict (DESIGN R2).
+				e.Inconclusive(fmt.Sprintf("idem.race: %s of %s did not finish within %v of real time and no wedge in MemoryLock.Lock was confirmed from goroutine dumps", what, c.ID, raceRoundWatchdog))
+			}
+			e.Stat("race.rounds_wedged", 1)
+			wedged, skip = true, true // the stuck goroutines are abandoned
+			return false
+		}
+		doubleSeen := func() bool {
+			found := false
+			keys.Range(func(_, v any) bool {
+				if v.(*keyState).succ.Load() > 1 {
+					found = true
+				}
+				return !found
+			})
+			return found
+		}
+
+		// pair rounds: two requests per fresh key meet at a spin barrier and enter the middleware
+		// at the same instant (first use of the key: no record, no lock entry yet)
+		for round := 0; round < pairRounds && !wedged; round++ {
+			var wg sync.WaitGroup
+			var arrived [raceKeys]atomic.Int32
+			for g := 0; g < 2*raceKeys; g++ {
+				g := g
+				wg.Add(1)
+				id := make(chan struct{})
+				go func() {
+					defer wg.Done()
+					gid := rig.enter()
+					defer rig.leave(gid)
+					close(id)
+					k := g % raceKeys
+					key := keyOf(round, k)
+					// everything that can be done before the barrier is done before it: the two
+					// requests of a key are handed to the app within nanoseconds of each other
+					var req fasthttp.Request
+					req.Header.SetMethod([]string{"POST", "PUT"}[g/raceKeys])
+					req.SetRequestURI("/")
+					req.Header.SetHost("example.com")
+					req.Header.Set(keyHeader, key)
+					var fctx fasthttp.RequestCtx
+					fctx.Init(&req, drive.DefaultRemote, nil)
+					arrived[k].Add(1)
+					for spins := 0; arrived[k].Load() < 2; spins++ {
+						if spins%2048 == 2047 {
+							runtime.Gosched()
+						}
+					}
+					handle(&fctx)
+					record(key, drive.CopyResp(&fctx.Response))
+				}()
+				<-id // registered before anybody waits for the round
+			}
+			if !finish(&wg, fmt.Sprintf("pair round %d", round)) {
+				break
+			}
+			e.Stat("race.pair_keys", raceKeys)
+		}
+		// a refuted instance is not hammered further: follow-up damage of a broken lock (fatal
+		// "unlock of unlocked mutex") would only take the verdict down with the process
+		refuted := !wedged && doubleSeen()
+		hammering.Store(true)
+		for round := pairRounds; round < pairRounds+rounds && !wedged && !refuted; round++ {
 			start := make(chan struct{})
 			var wg sync.WaitGroup
 			for g := 0; g < raceGoroutines; g++ {
 				g := g
 				wg.Add(1)
+				id := make(chan struct{})
 				go func() {
 					defer wg.Done()
+					gid := rig.enter()
+					defer rig.leave(gid)
+					close(id)
 					<-start
-					// 8 different keys per round; keys 2j and 2j+1 are the same text in lower and
-					// in upper case (the tag starts with letters): different strings, different keys
-					key := fmt.Sprintf("%s-%04d-4000-8000-%012d", tag, round, (g%raceKeys)/2)
-					if (g%raceKeys)%2 == 1 {
-						key = strings.ToUpper(key)
-					}
+					key := keyOf(round, g%raceKeys)
 					method := []string{"POST", "PUT", "PATCH", "DELETE"}[g%4]
 					reps := 1 + g%2
 					for k := 0; k < reps; k++ {
-						resp := d.Do(&drive.Req{Method: method, URI: "/", Hdr: []drive.H{{K: keyHeader, V: key}}})
-						a := raceAnswer{key: key, status: resp.Status, body: string(resp.Body), exec: resp.Get("X-Exec"),
-							multi: strings.Join(resp.All("X-Multi"), "|"), errored: resp.Get("X-Errored") == "1"}
-						mu.Lock()
-						answers = append(answers, a)
-						mu.Unlock()
+						record(key, d.Do(&drive.Req{Method: method, URI: "/", Hdr: []drive.H{{K: keyHeader, V: key}}}))
 					}
 					if g%16 == 0 {
-						// unaffected traffic in between: keyless unsafe, and safe with the same key
-						for _, rq := range []*drive.Req{{Method: "POST", URI: "/"}, {Method: "GET", URI: "/", Hdr: []drive.H{{K: keyHeader, V: key}}}} {
+						// unaffected traffic in between: keyless unsafe, safe with the same key, safe
+						// with a key header the validator would reject
+						for _, rq := range []*drive.Req{{Method: "POST", URI: "/"},
+							{Method: "GET", URI: "/", Hdr: []drive.H{{K: keyHeader, V: key}}},
+							{Method: "GET", URI: "/", Hdr: []drive.H{{K: keyHeader, V: "abc"}}}} {
 							resp := d.Do(rq)
 							if resp.Get("X-Ran") != "1" || resp.Status != 200 || !strings.HasPrefix(string(resp.Body), "free-") {
 								freeBad.Add(1)
@@ -144,29 +350,24 @@ func runRace(e *ev.Env) {
 						}
 					}
 				}()
+				<-id
 			}
 			close(start)
-			done := make(chan struct{})
-			go func() { wg.Wait(); close(done) }()
-			select {
-			case <-done:
-			case <-time.After(raceRoundWatchdog):
-				// Generous real-time watchdog (a round takes milliseconds): not a verdict (DESIGN R2);
-				// the exact deadlock verdict is the vt scheduler's. The stuck goroutines are abandoned.
-				e.Inconclusive(fmt.Sprintf("idem.race: round %d of %s did not finish within %v of real time (goroutines wedged in the middleware?)", round, c.ID, raceRoundWatchdog))
-				e.Stat("race.rounds_wedged", 1)
-				wedged, skip = true, true
-			}
-			if wedged {
+			if !finish(&wg, fmt.Sprintf("hammer round %d", round-pairRounds)) {
 				break
 			}
+			e.Stat("race.rounds", 1)
 		}
-		if wedged {
-			return // answers are still being appended by abandoned goroutines
+		if refuted {
+			e.Stat("race.cases_not_hammered_after_refutation", 1)
 		}
-		e.Eval(len(answers))
-		e.Stat("race.requests", int64(len(answers)))
-		e.Stat("race.rounds", int64(rounds))
+		// Judge what was answered. After a wedge the blocked goroutines stay blocked; a snapshot
+		// of the complete answers recorded so far is judged all the same.
+		mu.Lock()
+		snap := append([]raceAnswer(nil), answers...)
+		mu.Unlock()
+		e.Eval(len(snap))
+		e.Stat("race.requests", int64(len(snap)))
 		e.Stat("race.handler_executions", execCtr.Load())
 		e.Stat("race.keyless_or_safe_runs", keylessRuns.Load())
 		e.Nontrivial("race", c.ID)
@@ -176,7 +377,7 @@ func runRace(e *ev.Env) {
 		}
 		// per key
 		by := map[string][]raceAnswer{}
-		for _, a := range answers {
+		for _, a := range snap {
 			by[a.key] = append(by[a.key], a)
 		}
 		var ks []string
